@@ -24,7 +24,9 @@ const ID = "C09"
 // Styles are the render configurations: the four non-text renderers, the six
 // registered decorations and an unknown decoration.
 var Styles = []string{"csv", "html", "json", "markdown", "ascii-simple", "none", "utf8-light", "utf8-light-curved", "utf8-heavy", "utf8-double", "no-such-decoration",
-	"c09-bars-only", "c09-rules-only", "c09-corners-only", "c09-wide-glyphs"}
+	"c09-bars-only", "c09-rules-only", "c09-corners-only", "c09-wide-glyphs",
+	// style strings with further sections, as auto takes them (whatever the sections say, never a panic)
+	"html.class", "html.id", "HTML.x.id.class=y", "html.class=", "csv.", "json.x", "markdown.a=b", "texttable.none.x", "texttable.", "texttable..", ".", "..", "none.caption=x"}
 
 // decorations an application registered as they are, key points only (nothing says a decoration must be complete):
 // vertical bars and nothing horizontal, horizontal rules and nothing vertical, corners only, and a populated one
@@ -136,6 +138,9 @@ type renderer interface {
 }
 
 func wrap(t tabular.Table, style string) renderer {
+	if strings.Contains(style, ".") {
+		return auto.Wrap(t, style)
+	}
 	switch style {
 	case "csv":
 		return csv.Wrap(t)
